@@ -19,13 +19,34 @@ import (
 
 var fset = token.NewFileSet()
 
+// parse one file; a file that has been renamed or removed gives an empty file (its facts then fall back)
 func parse(path string) *ast.File {
 	f, err := parser.ParseFile(fset, path, nil, 0)
 	if err != nil {
-		fmt.Fprintln(os.Stderr, "facts:", err)
-		os.Exit(1)
+		fallback("file " + path + " (" + err.Error() + ")")
+		return &ast.File{}
 	}
 	return f
+}
+
+// parseDir merges the declarations of all non-test, non-verif Go files of a package directory, so that moving a
+// declaration from one file of the package to another does not matter
+func parseDir(dir string) *ast.File {
+	out := &ast.File{}
+	names, _ := filepath.Glob(filepath.Join(dir, "*.go"))
+	sort.Strings(names)
+	for _, n := range names {
+		b := filepath.Base(n)
+		if strings.HasSuffix(b, "_test.go") || strings.HasPrefix(b, "verif_") {
+			continue
+		}
+		f, err := parser.ParseFile(fset, n, nil, 0)
+		if err != nil {
+			continue
+		}
+		out.Decls = append(out.Decls, f.Decls...)
+	}
+	return out
 }
 
 // constants of a file: name -> literal (string / char / int), as Go values
@@ -177,17 +198,17 @@ func main() {
 	if len(os.Args) > 1 {
 		repo = os.Args[1]
 	}
-	p := parse(filepath.Join(repo, "parser", "parser.go"))
+	p := parseDir(filepath.Join(repo, "parser"))
 	pc := consts(p)
-	pe := parse(filepath.Join(repo, "parser", "errors.go"))
-	rs := consts(parse(filepath.Join(repo, "resolver", "resolver.go")))
+	pe := p
+	rs := consts(parseDir(filepath.Join(repo, "resolver")))
 	cli := filepath.Join(repo, "cmd", "hranoprovod-cli", "internal")
-	op := consts(parse(filepath.Join(cli, "options", "options.go")))
+	op := consts(parseDir(filepath.Join(cli, "options")))
 	csvr := parse(filepath.Join(cli, "csv", "csv_reporter.go"))
-	csvc := consts(csvr)
+	csvc := consts(parseDir(filepath.Join(cli, "csv")))
 	csvd := parse(filepath.Join(cli, "csv", "csv_database_reporter.go"))
 	pr := parse(filepath.Join(cli, "print", "print_reporter.go"))
-	tree := consts(parse(filepath.Join(repo, "tree_aggregator.go")))
+	tree := consts(parseDir(repo))
 
 	cut := callArgs(p, "strings.LastIndexAny", 1)
 	if len(cut) != 1 {
